@@ -1,3 +1,4 @@
--- This module serves as the root of the `Kanal` library.
--- Import modules here that should be built as part of the library.
 import Kanal.Basic
+import Kanal.Chan
+import Kanal.Spec
+import Kanal.Seq
